@@ -401,7 +401,9 @@ fn panic_hook(info: &std::panic::PanicHookInfo<'_>) {
             if st.active {
                 let t = thread_of(st);
                 let (actor, th) = (st.threads[t].actor, st.threads[t].idx);
-                let file = loc.rsplit('/').next().unwrap_or("").to_string();
+                // last two path components, e.g. `executor/mod.rs:133`
+                let parts: Vec<&str> = loc.rsplit('/').take(2).collect();
+                let file = parts.into_iter().rev().collect::<Vec<_>>().join("/");
                 let short: String = msg.chars().take(60).collect();
                 st.events.push(Ev {
                     actor,
